@@ -227,6 +227,17 @@ pub fn hostile_name_alphabet() -> Vec<String> {
             v.push(s);
         }
     }
+    // generators treat names ending in `_` specially (keyword escapes are spelled `name_`): every
+    // escape-relevant name and the injection strings again with a trailing underscore
+    let mut tail: Vec<String> = mclib::progs::escape_pair_names().into_iter().map(|s| format!("{s}_")).collect();
+    for s in ["a : Nat; b_", "\"; fn injected() {} //_", "*/ x /*_", "a b_", "1a_", "}_", "//_", "a\nb_", "é_", "class_", "_", "__", "a__"] {
+        tail.push(s.to_string());
+    }
+    for s in tail {
+        if !v.contains(&s) {
+            v.push(s);
+        }
+    }
     for s in [
         "\"#",
         "#\"",
